@@ -171,6 +171,21 @@ func observe(u *setUnderTest, m model, queries *int64) string {
 	if !u.equal(eq) || !eq.equal(u) {
 		return fmt.Sprintf("Equal(fresh set of %v)=false", want)
 	}
+	// ... and against a set that has just been constructed from the same values in descending order with
+	// duplicates and has not been asked anything yet (first as the argument, then as the receiver)
+	if len(want) > 0 {
+		var messy []int
+		for i := len(want) - 1; i >= 0; i-- {
+			messy = append(messy, want[i], want[i])
+		}
+		*queries += 2
+		if fresh := newSet(u.k, messy...); !u.equal(fresh) {
+			return fmt.Sprintf("Equal(a set just constructed from %v)=false, the model is %v", messy, want)
+		}
+		if fresh := newSet(u.k, messy...); !fresh.equal(u) {
+			return fmt.Sprintf("(a set just constructed from %v).Equal(s)=false, the model is %v", messy, want)
+		}
+	}
 	for v := 1; v <= universe; v++ {
 		d := m.clone()
 		if d[v] {
